@@ -86,8 +86,15 @@ def repo_rev():
 # one run, guarded
 # --------------------------------------------------------------------------------------
 
+def _cpu(check):
+    """Primary backstop: CPU seconds of the running process. Everything the library waits for is simulated, so a library
+    that does not terminate burns CPU; CPU time, unlike wall time, does not stretch when the machine is loaded."""
+    return getattr(check, "RUN_WALL_S", RUN_WALL_S) / 2.0
+
+
 def _wall(check):
-    return getattr(check, "RUN_WALL_S", RUN_WALL_S)
+    """Fallback backstop in real time (a run blocked outside the simulation), generous enough for a loaded machine."""
+    return getattr(check, "RUN_WALL_S", RUN_WALL_S) * 4
 
 
 def _alarm(_sig, _frm):
@@ -95,20 +102,28 @@ def _alarm(_sig, _frm):
 
 
 def guarded_run(check, ch, render=False, wall_s=None):
-    """Execute check.run(ch) with the wall-clock backstop. Harness exceptions propagate;
-    a wall timeout becomes a 'hang' outcome."""
-    wall_s = wall_s or getattr(check, "RUN_WALL_S", RUN_WALL_S)
+    """Execute check.run(ch) with the backstops. Harness exceptions propagate; a timeout becomes a 'hang' outcome."""
+    cpu_s = _cpu(check)
+    wall_s = wall_s or _wall(check)
     old = signal.signal(signal.SIGALRM, _alarm)
+    oldp = signal.signal(signal.SIGPROF, _alarm)
     signal.setitimer(signal.ITIMER_REAL, wall_s)
+    signal.setitimer(signal.ITIMER_PROF, cpu_s)
     try:
-        out = check.run(ch, render=render)
+        try:
+            out = check.run(ch, render=render)
+        finally:
+            signal.setitimer(signal.ITIMER_PROF, 0)
+            signal.setitimer(signal.ITIMER_REAL, 0)
     except (WallTimeout, ChildTimeout):
         out = Outcome()
-        out.fail("hang", f"run (or one of its baseline / expectation children) did not finish within the wall-clock "
-                         f"backstop of {wall_s}s", "hang")
+        out.fail("hang", f"run (or one of its baseline / expectation children) did not finish within the backstop of "
+                         f"{cpu_s:.0f} CPU seconds ({wall_s:.0f}s of wall-clock time)", "hang")
     finally:
+        signal.setitimer(signal.ITIMER_PROF, 0)
         signal.setitimer(signal.ITIMER_REAL, 0)
         signal.signal(signal.SIGALRM, old)
+        signal.signal(signal.SIGPROF, oldp)
     return out
 
 
@@ -332,7 +347,7 @@ def worker_main(check, base_seed, episodes, selftest_n, sample_idx, systematic, 
             continue
         per_run = getattr(check, "RUN_WALL_S", RUN_WALL_S)
         a = run_episode(check, base_seed, indices, selftest_n, sample_idx, systematic,
-                        wall_s=per_run * 6 + 0.5 * len(indices) + 60)
+                        wall_s=per_run * 8 + 0.5 * len(indices) + 60)
         agg.merge(a)
         if len(agg.errors) > 3:
             break
@@ -513,7 +528,7 @@ def episode_replay(check, viol, base_seed, episode_size, systematic):
 
     def fails(ixs):
         try:
-            res = in_child(lambda: run_case_sequence(check, base_seed, ixs, systematic), _wall(check) * 2 + 10 * len(ixs) + 60)
+            res = in_child(lambda: run_case_sequence(check, base_seed, ixs, systematic), _wall(check) + 10 * len(ixs) + 60)
         except RuntimeError:
             return False
         return res["kind"] == kind
@@ -538,7 +553,7 @@ def episode_replay(check, viol, base_seed, episode_size, systematic):
                 break
             n = min(len(pred), n * 2)
     final = pred + [idx]
-    res = in_child(lambda: run_case_sequence(check, base_seed, final, systematic, render=True), _wall(check) * 2 + 10 * len(final) + 60)
+    res = in_child(lambda: run_case_sequence(check, base_seed, final, systematic, render=True), _wall(check) + 10 * len(final) + 60)
     outdir = os.path.join(os.environ.get("VERIF_OUT_DIR") or os.path.join(VERIF_DIR, "out"), "replays")
     os.makedirs(outdir, exist_ok=True)
     path = os.path.join(outdir, f"{check.ID}-{idx}-{res['kind'] or 'none'}-episode-{h64(final) & 0xFFFFFF:06x}.json")
@@ -573,7 +588,7 @@ def minimise(check, viol, budget_s=60, max_execs=2000):
                     o, chx = replay_choices(check, c)
                     return (o.violation, chx.rec)
                 try:
-                    v, rec = in_child(one, _wall(check) * 2 + 30)
+                    v, rec = in_child(one, _wall(check) + 30)
                 except RuntimeError:
                     return False, c
                 return v == kind, rec
@@ -587,7 +602,7 @@ def minimise(check, viol, budget_s=60, max_execs=2000):
         return shrink(viol["choices"], still, max_execs=(4 if kind == "hang" else max_execs), deadline=deadline)
 
     try:
-        best, execs = in_child(job, budget_s + _wall(check) * 6 + 60)
+        best, execs = in_child(job, budget_s + _wall(check) * 2 + 60)
     except RuntimeError as e:
         return viol["choices"], 0, str(e)
     return best, execs, None
@@ -600,7 +615,7 @@ def write_replay(check, viol, minimal, base_seed, note=""):
         o, chx = replay_choices(check, minimal, render=True)
         return {"kind": o.violation, "sig": o.sig, "message": o.message,
                 "digest": log_digest(o.log), "trace": o.sample, "rec": chx.rec}
-    res = in_child(job, _wall(check) * 2 + 60)
+    res = in_child(job, _wall(check) + 60)
     outdir = os.path.join(os.environ.get("VERIF_OUT_DIR") or os.path.join(VERIF_DIR, "out"), "replays")   # scratch runs
     os.makedirs(outdir, exist_ok=True)
     name = f"{check.ID}-{viol['index']}-{res['kind'] or 'none'}-{h64(minimal) & 0xFFFFFF:06x}.json"
@@ -630,7 +645,7 @@ def confirm_in_fresh_interpreter(check, path):
     env["PYTHONHASHSEED"] = "12345"
     env["PYTHONDONTWRITEBYTECODE"] = "1"
     p = subprocess.run([sys.executable, os.path.join(VERIF_DIR, "sim", "main.py"), check.ID, "--replay", path,
-                        "--machine"], capture_output=True, text=True, env=env, timeout=_wall(check) * 3 + 120)
+                        "--machine"], capture_output=True, text=True, env=env, timeout=_wall(check) + 120)
     for line in p.stdout.splitlines():
         if line.startswith("REPLAY-RESULT "):
             return json.loads(line[len("REPLAY-RESULT "):]), p
@@ -771,7 +786,7 @@ def main_check(check, argv):
             o, chx = replay_choices(check, doc["choices"], render=True)
             return {"kind": o.violation, "sig": o.sig, "message": o.message, "digest": log_digest(o.log),
                     "trace": o.sample}
-        res = in_child(job, _wall(check) * 2 + 60 + (10 * len(doc["episode"]["case_indices"]) if doc.get("episode") else 0))
+        res = in_child(job, _wall(check) + 60 + (10 * len(doc["episode"]["case_indices"]) if doc.get("episode") else 0))
         if "--machine" in argv:
             print("REPLAY-RESULT " + json.dumps({"kind": res["kind"], "digest": res["digest"], "sig": res["sig"]}))
         else:
@@ -866,7 +881,7 @@ def main_check(check, argv):
             standalone = False
             for _try in range(2):
                 try:
-                    if in_child(_once, _wall(check) * 2 + 60) == v["kind"]:
+                    if in_child(_once, _wall(check) + 60) == v["kind"]:
                         standalone = True
                         break
                 except RuntimeError:
